@@ -74,8 +74,10 @@ def distance_point_to_segment(p, s1, s2, delta=0.0, constrain=True):
     dist_ct = fabs(dxt) * earth_radius
     # Correct to negative value if point is before segment
     # sgn = -1 if b13d12 > (math.pi / 2) else 1
-    sgn = copysign(1, cos(b12 - b13))
-    dat = sgn * acos(cos(delta13) / abs(cos(dxt))) * earth_radius
+    # Along-track distance: tan(dat) = cos(b12 - b13) * tan(delta13). The sign follows from the cosine
+    # (negative if the point is before the segment). This is accurate for short distances, in contrast
+    # with acos(cos(delta13) / cos(dxt)) which cannot resolve angles below ~1e-8 rad (centimeters).
+    dat = atan2(cos(b12 - b13) * sin(delta13), cos(delta13)) * earth_radius
     ti = dat / dist_hs
 
     if not constrain:
